@@ -30,35 +30,45 @@ PathTab ==
    pmh  |-> [text |-> "/mh/{v}/w/{w}", segs |-> <<Lit("mh"), Par("v"), Lit("w"), Par("w")>>],
    pmd  |-> [text |-> "/md/{v}",      segs |-> <<Lit("md"), Par("v")>>],
    pdup2 |-> [text |-> "/d/{a}/{b}/{a}/{b}", segs |-> <<Lit("d"), Par("a"), Par("b"), Par("a"), Par("b")>>],
+   pqs  |-> [text |-> "/qs/{id}",     segs |-> <<Lit("qs"), Par("id")>>],
+   prl  |-> [text |-> "/rl",          segs |-> <<Lit("rl")>>],
+   pdm  |-> [text |-> "/dm",          segs |-> <<Lit("dm")>>],
    pdr  |-> [text |-> "/dr",          segs |-> <<Lit("dr")>>],
    prb  |-> [text |-> "/rb",          segs |-> <<Lit("rb")>>],
    ptt  |-> [text |-> "/tt",          segs |-> <<Lit("tt")>>],
+   psp  |-> [text |-> "\"/s p\"",     segs |-> <<Lit("s p")>>],         \* a quoted path with a blank: refused (BlankPaths)
    pempty |-> [text |-> "/e/{}",      segs |-> <<Lit("e"), Par("")>>]]
 PathIds == DOMAIN PathTab
+BlankPaths == {"psp"}     \* a blank separates the fields of an interaction id; a path may not contain one
 
 \* kind: schema | enum | text | regex
 \* root: tokenType of the root node as the catalog reports it; rtype: its "type"
 \* uses / enums: user types and enums the schema refers to; keys: top-level keys;
+\* inh: user types used only through inheritance (allOf): listed in usedUserTypes, not looked up at this body;
 \* props: first-level children in order (key, token type, JSight type) as the catalog lists them
 BodyTab ==
-  [obj    |-> [text |-> "{\"k\": 1}",            kind |-> "schema", root |-> "object", rtype |-> "object",  uses |-> {}, enums |-> {}, keys |-> {"k"}, props |-> <<[key |-> "k", tt |-> "number", ty |-> "integer"]>>],
-   obj2   |-> [text |-> "{\"n\": \"s\"}",        kind |-> "schema", root |-> "object", rtype |-> "object",  uses |-> {}, enums |-> {}, keys |-> {"n"}, props |-> <<[key |-> "n", tt |-> "string", ty |-> "string"]>>],
-   objref |-> [text |-> "{\"r\": @t1}",          kind |-> "schema", root |-> "object", rtype |-> "object",  uses |-> {"@t1"}, enums |-> {}, keys |-> {"r"}, props |-> <<[key |-> "r", tt |-> "reference", ty |-> "@t1"]>>],
-   objr2  |-> [text |-> "{\"r\": @t2}",          kind |-> "schema", root |-> "object", rtype |-> "object",  uses |-> {"@t2"}, enums |-> {}, keys |-> {"r"}, props |-> <<[key |-> "r", tt |-> "reference", ty |-> "@t2"]>>],
-   objen  |-> [text |-> "{\n  \"e\": 1 // {enum: @e1}\n}", kind |-> "schema", root |-> "object", rtype |-> "object", uses |-> {}, enums |-> {"@e1"}, keys |-> {"e"}, props |-> <<[key |-> "e", tt |-> "number", ty |-> "enum"]>>],
-   arr    |-> [text |-> "[1]",                   kind |-> "schema", root |-> "array",  rtype |-> "array",   uses |-> {}, enums |-> {}, keys |-> {}, props |-> <<[key |-> "", tt |-> "number", ty |-> "integer"]>>],
-   str    |-> [text |-> "\"s\"",                 kind |-> "schema", root |-> "string", rtype |-> "string",  uses |-> {}, enums |-> {}, keys |-> {}, props |-> <<>>],
-   ref1   |-> [text |-> "@t1",                   kind |-> "schema", root |-> "reference", rtype |-> "@t1",  uses |-> {"@t1"}, enums |-> {}, keys |-> {}, props |-> <<>>],
-   refu   |-> [text |-> "@nope",                 kind |-> "schema", root |-> "reference", rtype |-> "@nope", uses |-> {"@nope"}, enums |-> {}, keys |-> {}, props |-> <<>>],
-   hdr    |-> [text |-> "{\"H\": \"v\"}",        kind |-> "schema", root |-> "object", rtype |-> "object",  uses |-> {}, enums |-> {}, keys |-> {"H"}, props |-> <<[key |-> "H", tt |-> "string", ty |-> "string"]>>],
-   pid    |-> [text |-> "{\"id\": 1}",           kind |-> "schema", root |-> "object", rtype |-> "object",  uses |-> {}, enums |-> {}, keys |-> {"id"}, props |-> <<[key |-> "id", tt |-> "number", ty |-> "integer"]>>],
-   pxor   |-> [text |-> "{\n  \"x\": 1 // {or: [{type: \"integer\"}, {type: \"string\"}]}\n}", kind |-> "schema", root |-> "object", rtype |-> "object", uses |-> {}, enums |-> {}, keys |-> {"x"}, props |-> <<[key |-> "x", tt |-> "number", ty |-> "mixed"]>>],
-   py     |-> [text |-> "{\"y\": 1}",            kind |-> "schema", root |-> "object", rtype |-> "object",  uses |-> {}, enums |-> {}, keys |-> {"y"}, props |-> <<[key |-> "y", tt |-> "number", ty |-> "integer"]>>],
-   px     |-> [text |-> "{\"x\": 1}",            kind |-> "schema", root |-> "object", rtype |-> "object",  uses |-> {}, enums |-> {}, keys |-> {"x"}, props |-> <<[key |-> "x", tt |-> "number", ty |-> "integer"]>>],
-   en     |-> [text |-> "[1, \"a\"]",            kind |-> "enum",   root |-> "array",  rtype |-> "array",   uses |-> {}, enums |-> {}, keys |-> {}, props |-> <<>>],
-   d1     |-> [text |-> "text one",              kind |-> "text",   root |-> "",       rtype |-> "",        uses |-> {}, enums |-> {}, keys |-> {}, props |-> <<>>],
-   d2     |-> [text |-> "text two",              kind |-> "text",   root |-> "",       rtype |-> "",        uses |-> {}, enums |-> {}, keys |-> {}, props |-> <<>>],
-   rx     |-> [text |-> "/ab/",                  kind |-> "regex",  root |-> "",       rtype |-> "",        uses |-> {}, enums |-> {}, keys |-> {}, props |-> <<>>]]
+  [obj    |-> [text |-> "{\"k\": 1}",            kind |-> "schema", root |-> "object", rtype |-> "object",  uses |-> {}, inh |-> {}, enums |-> {}, keys |-> {"k"}, props |-> <<[key |-> "k", tt |-> "number", ty |-> "integer"]>>],
+   obj2   |-> [text |-> "{\"n\": \"s\"}",        kind |-> "schema", root |-> "object", rtype |-> "object",  uses |-> {}, inh |-> {}, enums |-> {}, keys |-> {"n"}, props |-> <<[key |-> "n", tt |-> "string", ty |-> "string"]>>],
+   objref |-> [text |-> "{\"r\": @t1}",          kind |-> "schema", root |-> "object", rtype |-> "object",  uses |-> {"@t1"}, inh |-> {}, enums |-> {}, keys |-> {"r"}, props |-> <<[key |-> "r", tt |-> "reference", ty |-> "@t1"]>>],
+   objr2  |-> [text |-> "{\"r\": @t2}",          kind |-> "schema", root |-> "object", rtype |-> "object",  uses |-> {"@t2"}, inh |-> {}, enums |-> {}, keys |-> {"r"}, props |-> <<[key |-> "r", tt |-> "reference", ty |-> "@t2"]>>],
+   objen  |-> [text |-> "{\n  \"e\": 1 // {enum: @e1}\n}", kind |-> "schema", root |-> "object", rtype |-> "object", uses |-> {}, inh |-> {}, enums |-> {"@e1"}, keys |-> {"e"}, props |-> <<[key |-> "e", tt |-> "number", ty |-> "enum"]>>],
+   arr    |-> [text |-> "[1]",                   kind |-> "schema", root |-> "array",  rtype |-> "array",   uses |-> {}, inh |-> {}, enums |-> {}, keys |-> {}, props |-> <<[key |-> "", tt |-> "number", ty |-> "integer"]>>],
+   str    |-> [text |-> "\"s\"",                 kind |-> "schema", root |-> "string", rtype |-> "string",  uses |-> {}, inh |-> {}, enums |-> {}, keys |-> {}, props |-> <<>>],
+   ref1   |-> [text |-> "@t1",                   kind |-> "schema", root |-> "reference", rtype |-> "@t1",  uses |-> {"@t1"}, inh |-> {}, enums |-> {}, keys |-> {}, props |-> <<>>],
+   refu   |-> [text |-> "@nope",                 kind |-> "schema", root |-> "reference", rtype |-> "@nope", uses |-> {"@nope"}, inh |-> {}, enums |-> {}, keys |-> {}, props |-> <<>>],
+   hdr    |-> [text |-> "{\"H\": \"v\"}",        kind |-> "schema", root |-> "object", rtype |-> "object",  uses |-> {}, inh |-> {}, enums |-> {}, keys |-> {"H"}, props |-> <<[key |-> "H", tt |-> "string", ty |-> "string"]>>],
+   pid    |-> [text |-> "{\"id\": 1}",           kind |-> "schema", root |-> "object", rtype |-> "object",  uses |-> {}, inh |-> {}, enums |-> {}, keys |-> {"id"}, props |-> <<[key |-> "id", tt |-> "number", ty |-> "integer"]>>],
+   objun  |-> [text |-> "{\"a\": @t1|@t2}",       kind |-> "schema", root |-> "object", rtype |-> "object",  uses |-> {"@t1", "@t2"}, inh |-> {}, enums |-> {}, keys |-> {"a"}, props |-> <<[key |-> "a", tt |-> "reference", ty |-> "mixed"]>>],
+   objall |-> [text |-> "{ // {allOf: \"@t5\"}\n  \"z\": 1\n}", kind |-> "schema", root |-> "object", rtype |-> "object", uses |-> {"@t5"}, inh |-> {"@t1", "@t2"}, enums |-> {}, keys |-> {"a", "z"},
+               props |-> <<[key |-> "a", tt |-> "reference", ty |-> "mixed"], [key |-> "z", tt |-> "number", ty |-> "integer"]>>],
+   pxor   |-> [text |-> "{\n  \"x\": 1 // {or: [{type: \"integer\"}, {type: \"string\"}]}\n}", kind |-> "schema", root |-> "object", rtype |-> "object", uses |-> {}, inh |-> {}, enums |-> {}, keys |-> {"x"}, props |-> <<[key |-> "x", tt |-> "number", ty |-> "mixed"]>>],
+   py     |-> [text |-> "{\"y\": 1}",            kind |-> "schema", root |-> "object", rtype |-> "object",  uses |-> {}, inh |-> {}, enums |-> {}, keys |-> {"y"}, props |-> <<[key |-> "y", tt |-> "number", ty |-> "integer"]>>],
+   px     |-> [text |-> "{\"x\": 1}",            kind |-> "schema", root |-> "object", rtype |-> "object",  uses |-> {}, inh |-> {}, enums |-> {}, keys |-> {"x"}, props |-> <<[key |-> "x", tt |-> "number", ty |-> "integer"]>>],
+   en     |-> [text |-> "[1, \"a\"]",            kind |-> "enum",   root |-> "array",  rtype |-> "array",   uses |-> {}, inh |-> {}, enums |-> {}, keys |-> {}, props |-> <<>>],
+   d1     |-> [text |-> "text one",              kind |-> "text",   root |-> "",       rtype |-> "",        uses |-> {}, inh |-> {}, enums |-> {}, keys |-> {}, props |-> <<>>],
+   d3     |-> [text |-> "line one\nline two",    kind |-> "text",   root |-> "",       rtype |-> "",        uses |-> {}, inh |-> {}, enums |-> {}, keys |-> {}, props |-> <<>>],
+   d2     |-> [text |-> "text two",              kind |-> "text",   root |-> "",       rtype |-> "",        uses |-> {}, inh |-> {}, enums |-> {}, keys |-> {}, props |-> <<>>],
+   rx     |-> [text |-> "/ab/",                  kind |-> "regex",  root |-> "",       rtype |-> "",        uses |-> {}, inh |-> {}, enums |-> {}, keys |-> {}, props |-> <<>>]]
 BodyIds == DOMAIN BodyTab
 
 SetToSeq(S) == CHOOSE f \in [1..Cardinality(S) -> S] : \A i, j \in 1..Cardinality(S) : i # j => f[i] # f[j]
